@@ -1,2 +1,96 @@
+(** C19: elementary helpers (inverse.rs, perfect_power.rs, kronecker.rs, primes.rs). Statements only; proofs in Refine/. *)
+From Coq Require Import ZArith List Bool Znumtheory Sorted.
 From RNT.Model Require Import Base Elementary.
-Theorem placeholder_c19 : True. Proof. exact I. Qed.
+From RNT.Refine Require Import ElemProofs KroneckerProofs.
+Open Scope Z_scope.
+
+(** [P] the fuel the model gives to the recursive Euclid always suffices. *)
+Theorem extgcd_fuel_suffices : forall a b, exists r, extgcd a b = Done r.
+Proof. exact ElemProofs.extgcd_fuel_suffices. Qed.
+
+(** [P] modular inverse, all a, all m >= 1. *)
+Theorem inv_spec : forall a m, 1 <= m ->
+  (Z.gcd a m = 1 -> exists x, inv a m = Done (InvOk x) /\ 0 <= x < m /\ (a * x) mod m = 1 mod m) /\
+  (Z.gcd a m <> 1 -> inv a m = Done (InvErr (Z.gcd a m))).
+Proof. exact ElemProofs.inv_spec. Qed.
+Example inv_ex : inv (-7) 30 = Done (InvOk 17) /\ inv 21 30 = Done (InvErr 3) /\ inv 5 1 = Done (InvOk 0).
+Proof. vm_compute. auto. Qed.
+
+(** [P] zmod is the floor remainder for a positive modulus. *)
+Theorem zmod_spec : forall x mo, 0 < mo -> zmod x mo = Done (x mod mo).
+Proof. exact ElemProofs.zmod_spec. Qed.
+Example zmod_ex : zmod (-7) 5 = Done 3. Proof. reflexivity. Qed.
+
+(** [P] the model of BigInt::nth_root is the floor root. *)
+Theorem iroot_spec : forall k n, 1 <= k -> 0 <= n ->
+  0 <= iroot k n /\ iroot k n ^ k <= n < (iroot k n + 1) ^ k.
+Proof. exact ElemProofs.iroot_spec. Qed.
+Example iroot_ex : iroot 3 1000 = 10 /\ iroot 3 999 = 9 /\ iroot 2 0 = 0. Proof. vm_compute. auto. Qed.
+
+(** [P] perfect_power: n >= 0 gives (b, k), b^k = n, k >= 1; for n >= 2 no larger exponent has an exact integer
+    root (n = 0, 1 are k-th powers for every k; the code answers k = 1). n < 0 is the documented panic. *)
+Theorem perfect_power_spec : forall n, 0 <= n ->
+  exists b k, perfect_power n = Done (b, k) /\ b ^ k = n /\ 1 <= k /\
+              (2 <= n -> forall k' x, k < k' -> x ^ k' <> n).
+Proof. exact ElemProofs.perfect_power_spec. Qed.
+Theorem perfect_power_negative : forall n, n < 0 -> perfect_power n = Panic POther.
+Proof. exact ElemProofs.perfect_power_negative. Qed.
+Example perfect_power_ex : perfect_power 1024 = Done (2, 10) /\ perfect_power 1000 = Done (10, 3) /\ perfect_power 12 = Done (12, 1).
+Proof. vm_compute. auto. Qed.
+
+(** [P] sieve: [primes bound] is exactly the strictly increasing list of the primes <= bound
+    (primality is [Znumtheory.prime] of the index). *)
+Theorem primes_spec : forall bound,
+  StronglySorted lt (primes bound) /\
+  forall p, In p (primes bound) <-> (p <= bound)%nat /\ prime (Z.of_nat p).
+Proof. exact ElemProofs.primes_spec. Qed.
+Example primes_ex : primes 30 = [2; 3; 5; 7; 11; 13; 17; 19; 23; 29]%nat. Proof. reflexivity. Qed.
+
+(** [P] trial-division [is_prime] of primes.rs decides [Znumtheory.prime] (fuel suffices). *)
+Theorem td_is_prime_spec : forall a, exists b, td_is_prime a = Done b /\ (b = true <-> prime a).
+Proof. exact ElemProofs.td_is_prime_spec. Qed.
+
+(** [P] prime iterator, partial correctness: a result of [take k] started at [now] has length k, is strictly
+    increasing and consists exactly of the primes from [now] up to its last element (now = 2: the first k primes).
+    Sufficiency of the fuel of one [next] (now + 2 candidates) is Bertrand's postulate: not proved. *)
+Theorem primes_take_spec : forall k now l, primes_take k now = Done l ->
+  length l = k /\ StronglySorted Z.lt l /\
+  (forall p, In p l -> now <= p /\ prime p) /\
+  (forall q p, prime q -> now <= q -> In p l -> q <= p -> In q l).
+Proof. exact ElemProofs.primes_take_spec. Qed.
+Example primes_take_ex : primes_take 8 2 = Done [2; 3; 5; 7; 11; 13; 17; 19]. Proof. reflexivity. Qed.
+
+(** Kronecker symbol routine (i64 arithmetic on Z; mode = build profile). *)
+
+(** [P] whenever it returns, the result is -1, 0 or 1 (all integers, both profiles). *)
+Theorem kronecker_range : forall m a b r, kronecker m a b = Done r -> r = -1 \/ r = 0 \/ r = 1.
+Proof. exact KroneckerProofs.kronecker_range. Qed.
+
+(** [P] (a/0) = 1 if |a| = 1, else 0. *)
+Theorem kronecker_b0 : forall m a, kronecker m a 0 = Done (if Z.abs a =? 1 then 1 else 0).
+Proof. exact KroneckerProofs.kronecker_b0. Qed.
+
+(** [P] both arguments even: 0. *)
+Theorem kronecker_both_even : forall m a b, Z.even a = true -> Z.even b = true -> kronecker m a b = Done 0.
+Proof. exact KroneckerProofs.kronecker_both_even. Qed.
+
+(** [P] on the whole i64 x i64 range, in both profiles, the routine returns: no overflow panic is reachable
+    (negation and abs are only applied to odd values, never to i64::MIN) and the model's fuel suffices. *)
+Theorem kronecker_total : forall m a b, - two63 <= a < two63 -> - two63 <= b < two63 ->
+  exists r, kronecker m a b = Done r.
+Proof. exact KroneckerProofs.kronecker_total. Qed.
+Example kronecker_total_ex : kronecker Checked (- two63) (- two63 + 1) = Done 1 /\ kronecker Checked 3 (- two63) = Done (-1).
+Proof. vm_compute. auto. Qed.
+
+(** [B] for |a|, |b| <= 2^7 the routine equals the reference symbol [KroneckerProofs.kron_ref]: (a/0) = [|a| = 1], else
+    (a/sign b) * prod over the primes p | b of (a/p)^(v_p b), with (a/p) by Euler's criterion for odd p, the (a/2)
+    table and (a/-1) = sign a. Closed by vm_compute over the 257 x 257 box; the unbounded equality is not proved. *)
+Theorem kronecker_bounded : forall m a b, -128 <= a <= 128 -> -128 <= b <= 128 ->
+  kronecker m a b = Done (kron_ref a b).
+Proof. exact KroneckerProofs.kronecker_bounded. Qed.
+Theorem kron_ref_factorisation_bounded : forall b, 1 <= b <= 128 ->
+  fold_right (fun p acc => p ^ Z.of_nat (pval 8 p b) * acc) 1 primes128 = b.
+Proof. exact KroneckerProofs.kron_ref_factorisation_bounded. Qed.
+Example kronecker_bounded_ex : kronecker Checked (-1) 3 = Done (-1) /\ kron_ref (-1) 3 = -1 /\ kron_ref 2 (-15) = 1 /\ kron_ref (-5) (-12) = -1
+  /\ primes128 = map Z.of_nat (primes 128).
+Proof. vm_compute. repeat split; reflexivity. Qed.
